@@ -534,6 +534,18 @@ theorem formLoop_any_number_of_passes {V : Type} (bin R : List String) (n : Nat)
   simp only [loopResult, beq_self_eq_true, if_true]
   exact formPasses_fold bin R n kids []
 
+/-- the loop over the form media types of a request body is what the model of `fromV3Body` computes in one step -/
+theorem formLoop_is_fromV3Body {V : Type} (bin R : List String) (mimes : List String) (kids : List (Slot × Sch V))
+    (h : (mimes.filter isFormMime).length ≠ 0) :
+    loopResult (updatesOf KinModel.Gen.requestBodiesUpdates "formParameters")
+      (formPasses bin R (mimes.filter isFormMime).length kids) =
+    fromV3FormFields (formTwice mimes) bin R kids := by
+  cases hn : (mimes.filter isFormMime).length with
+  | zero => exact absurd hn h
+  | succ n =>
+    rw [formLoop_any_number_of_passes]
+    simp [formTwice, hn]
+
 /-- witness (F-C17-16, FormItemsNullableLost): an array form parameter whose items carry `x-nullable: true`, under
     both form media types — the form field kept by fromV3RequestBodies is the one of the second pass, whose items
     have lost `x-nullable`; under one form media type they keep it -/
